@@ -103,6 +103,7 @@ def run_unit(name, repo, workdir, expanded=None, rlimit=30, bless=False, threads
     res['file'] = fpath
     res['functions_under_contract'] = U.functions_under_contract
     res['rewrites'] = U.rewrite_counts()
+    res['lost_anchors'] = list(U.lost)
     res['trusted'] = ['%s %s (line %d)' % h for h in scan_trusted(text)]
     flags = list(getattr(mod, 'VERUS_FLAGS', []))
     cmd = ['verus', fpath, '--output-json', '--time', '--rlimit', str(rlimit), '--num-threads', str(threads), '--multiple-errors', '4'] + flags
@@ -191,6 +192,8 @@ def run_unit(name, repo, workdir, expanded=None, rlimit=30, bless=False, threads
             return res
         res['status'] = 'violation'
         res['reason'] = '; '.join(sorted(set(e['head'] for e in viol))[:4])
+        if res.get('lost_anchors'):
+            res['reason'] += ' [code changed shape: ' + '; '.join(res['lost_anchors'][:3]) + ']'
         return res
     if vr.get('encountered-error') and not flags:
         res['status'] = 'undecided'
